@@ -10,7 +10,11 @@ prop("C09", "exploration",
      "a tube belongs to the incarnation that tube was accepted for (content is a keyed function of incarnation and offset), "
      "unreliable reads are whole written messages (never empty, fragments or merges), ids handed to concurrent local creators "
      "are distinct per class and have the side's parity, each incarnation is offered by Accept at most once with its opener's type "
-     "and reliability, and on a loss-free network every opened reliable incarnation is offered. Non-trivial = >=2 concurrent workers "
+     "and reliability, and on a loss-free network every opened reliable incarnation is offered. Regime-independent clause (both families): "
+     "a tube handed out by Accept on a side carries an identifier of the OTHER side's parity (it was opened remotely), signature without "
+     "regime qualifier. Last act of every case, when all workers are done and nothing is created any more: the network delivers one more "
+     "copy of every answer to an open request (RESP datagram) it carried - stale duplicates for tubes that are closed and reaped by then; "
+     "nothing may come out of Accept because of them. Non-trivial = >=2 concurrent workers "
      "or identifier reuse; distinct by case hash. Second family BURST OF OPENS AGAINST A SLOW ACCEPTOR (TestVerifC09Burst): each side "
      "opens 0-140 reliable and 0-140 unreliable tubes at once (a side owns 128 identifiers per class; one-sided in a quarter of the cases), "
      "spread over 1-8 concurrent creators, plus an optional later wave of up to 120 tubes where the peer opens at most 128 in total; each "
@@ -20,7 +24,12 @@ prop("C09", "exploration",
      "Oracle: identifiers handed to the creators are distinct per class and have the side's parity; Accept never returns a tube "
      "nobody opened, never the same tube twice, always with the opener's type and class; every tube (both classes) whose open request "
      "reached the accepting side (network log) is offered within start-of-accepting + one gap per tube + 30 virtual seconds; what is "
-     "read on an accepted tube is (a prefix of) what its opener wrote on that tube. Non-trivial = >= 2 tubes opened.",
+     "read on an accepted tube is (a prefix of) what its opener wrote on that tube. AFTERMATH (two cases in three, after the verdict on the "
+     "burst, nothing is created afterwards so still no identifier is reused): each side opens 0-20 unreliable tubes and closes them again "
+     "at once, before any answer can be back (the answer meets a muxer that has forgotten the tube); and/or every tube of the case is closed "
+     "on both ends, the quarantine passes and one more copy of every RESP datagram the network carried is delivered. Judged by the Accept "
+     "clauses: no tube nobody opened, none twice, none of the acceptor's own parity, never more tubes accepted than the peer opened. "
+     "Non-trivial = >= 2 tubes opened.",
      ["muxer data timeout 0", "empty unreliable messages are never written, so any empty read is foreign",
       "'tube never offered' is only judged for reliable tubes on a loss-free network (first family); in the burst family, where the network is faithful and no identifier is reused, for both classes",
       "burst family: a side opens tubes later than t=0 only if its peer opens at most 128 tubes (the unchanged receiver waits, holding the muxer lock, while the accept queue is full; a Create call waiting for that lock would stop the bubble's virtual clock)"],
